@@ -22,6 +22,8 @@ def main(argv):
         rep.replay_only = args.replay
     else:
         inputs = rb.domain_inputs(args.tier, args.seed, "XRB", scale=0.3 if quick else 0.5)
+        # graphs from the source front end: the library has no serialised form for PythonASTBlock (known finding)
+        inputs += rb.domain_inputs(args.tier, args.seed, "S", scale=0.2 if quick else 0.1)
     d = rb.workdir(PROP)
     try:
         res = rb.record_domain(inputs, d, jobs=args.jobs, shards=args.jobs, stages=True, hook="harness.hooks:roundtrip",
@@ -49,7 +51,7 @@ def main(argv):
                 for clause in st["bad"]:
                     rep.violation(clause, {"id": s["id"], "stage": rec["stage"], "path": rec["path"]},
                                   detail={"excw": rec["excw"], "excr": rec["excr"], "excw2": rec["excw2"], "excr2": rec["excr2"]},
-                                  signature={"clause": clause, "exc": rec["excw"] or rec["excr"] or rec["excw2"] or rec["excr2"], "has_ast": "ast" in kinds})
+                                  signature={"clause": clause, "exc": (rec["excw"] or rec["excr"] or rec["excw2"] or rec["excr2"]).split(":")[0], "has_ast": "ast" in kinds})
     finally:
         tlc.cleanup(d)
     summ = [s for r in res for s in r["summary"]]
